@@ -4,10 +4,12 @@ crashx: for each history-rewriting operation of the JSON back end (background fl
 delete(pattern), erasedups(), the stale-lock unlock rewrite inside JsonHistoryGC.files()) and each
 pre-state, the file-system operation log is recorded once; then EVERY crash point (before each
 operation and after the last), EVERY torn length of every write (quick: 1, n/2, n-1) and EVERY single
-failing call (per-call errno table) is executed in a forked child on a copy of the pre-state.
+failing call (per-call errno table) and EVERY short write (the call accepts 1 or n/2 bytes and returns
+that count) is executed in a forked child on a copy of the pre-state.
 Afterwards every xonsh-*.json history file must load with the real LazyJSON and equal either its
 complete previous or its complete new version.  The SQLite back end is explored at syscall level
-(strace fault injection) in xv/c13_sqlite.py.
+(strace fault injection) in xv/c13_sqlite.py, and so is - independently of which Python API the module
+uses - the JSON back end in xv/c13_sys.py.
 
 Does not require: anything about stray *.json.tmp files (they are not history files; counted only);
 power-loss semantics (process-kill model: what was written stays written)."""
@@ -253,16 +255,24 @@ def run(ctx):
         c13_sqlite = None
     if c13_sqlite is not None:
         sq = c13_sqlite.run_part(ctx)
+    sy = None
+    try:
+        from . import c13_sys
+    except ImportError:
+        c13_sys = None
+    if c13_sys is not None:
+        sy = c13_sys.run_part(ctx)
     ctx.sample({"op": "flush-bg", "state": "one", "oplog": [list(x) for x in _BASE[("flush-bg", "one")][2]]})
     ctx.sample({"fault": ["tear", 3, 1], "meaning": "write #3 puts 1 byte then the process dies"})
     ctx.coverage.update(
-        evaluations=len(items) + (sq["evaluations"] if sq else 0),
-        distinct_nontrivial=len({(i[0], i[1], i[2]) for i in items if i[2][1] < per_op[f"{i[0]}/{i[1]}"]["ops"]}) + (sq["distinct"] if sq else 0),
+        evaluations=len(items) + (sq["evaluations"] if sq else 0) + (sy["evaluations"] if sy else 0),
+        distinct_nontrivial=len({(i[0], i[1], i[2]) for i in items if i[2][1] < per_op[f"{i[0]}/{i[1]}"]["ops"]}) + (sq["distinct"] if sq else 0) + (sy["distinct"] if sy else 0),
         rule="every crash point, torn-write length (quick: 1, n/2, n-1; thorough: all) and single failing call (errno table per call kind) of the recorded operation log of each (operation, pre-state); non-trivial = the fault hits a real operation of the log (the after-the-end crash is the control)",
         exhaustive=True,
         per_operation=per_op,
         stray_tmp_files_seen=sum(r["stray"] for r in res),
         sqlite_part=sq["summary"] if sq else "not run",
+        json_syscall_part=sy["summary"] if sy else "not run",
     )
     ctx.assumptions += ["process-kill crash model (written data survives); buffering decided by CPython's real io stack", "time.time is constant inside the history module so that old/new versions are comparable"]
 
@@ -270,6 +280,10 @@ def run(ctx):
 def replay(rec):
     _setup()
     c = rec["case"]
+    if c.get("tier") == "syscall":
+        from . import c13_sys
+
+        return c13_sys.replay(rec)
     r = _run_case((c["op"], c["state"], tuple(c["fault"])))
     pre, post, log = _baseline(c["op"], c["state"])
     print("operation log:")
